@@ -2066,4 +2066,42 @@ theorem lastSnap_run (cfg : Cfg) (es : List Event) :
     simp only [run, lastSnap, final]
     exact ih _ _ (next_snap cfg t _)
 
+/-! ### Reload -/
+
+/-- Well-formedness does not depend on the start instant. -/
+theorem chainFuel_startedAt (cfg : Cfg) (now f q : Nat) :
+    chainFuel (cfg.startedAt now) f q = chainFuel cfg f q := by
+  induction f generalizing q with
+  | zero => rfl
+  | succ f ih =>
+    show q :: (match cfg.parent q with | some p => chainFuel (cfg.startedAt now) f p | none => []) = _
+    cases h : cfg.parent q <;> simp [chainFuel, h, ih]
+
+theorem chainOf_startedAt (cfg : Cfg) (now q : Nat) : (cfg.startedAt now).chainOf q = cfg.chainOf q :=
+  chainFuel_startedAt cfg now _ q
+
+theorem wf_startedAt (cfg : Cfg) (now : Nat) : (cfg.startedAt now).wf = cfg.wf := by
+  unfold Cfg.wf Cfg.sysDecs Cfg.sysOrder Cfg.rootOf
+  simp only [chainOf_startedAt]
+  rfl
+
+theorem isConc_startedAt (cfg : Cfg) (now q : Nat) : (cfg.startedAt now).isConc q = cfg.isConc q := rfl
+
+/-- Every load of a history with reloads is a run of a freshly started engine. -/
+theorem runReloads_fresh (cfg0 : Cfg) (now0 : Nat) (es : List Event) (rest : List (Cfg × List Event))
+    (hwf0 : cfg0.wf = true) (hwf : ∀ p ∈ rest, p.1.wf = true) :
+    ∀ p ∈ runReloads (cfg0.startedAt now0) (S.init (cfg0.startedAt now0)) es rest,
+      ∃ (cfg : Cfg) (now : Nat) (es' : List Event), cfg.wf = true ∧ p = (cfg.startedAt now, run (cfg.startedAt now) (S.init (cfg.startedAt now)) es') := by
+  induction rest generalizing cfg0 now0 es with
+  | nil =>
+    intro p hp
+    simp only [runReloads, List.mem_singleton] at hp
+    exact ⟨cfg0, now0, es, hwf0, hp⟩
+  | cons hd tl ih =>
+    intro p hp
+    simp only [runReloads, List.mem_cons] at hp
+    rcases hp with hp | hp
+    · exact ⟨cfg0, now0, es, hwf0, hp⟩
+    · exact ih hd.1 _ hd.2 (hwf hd (List.mem_cons_self ..)) (fun q hq => hwf q (List.mem_cons_of_mem _ hq)) p hp
+
 end LunarVerif.C02
